@@ -130,6 +130,12 @@ func (s *PState) Eval(v ssa.Value) Tri {
 	return s.env[v]
 }
 
+// Forget drops what is known about v (used for facts that must not survive a loop round).
+func (s *PState) Forget(v ssa.Value) {
+	delete(s.env, v)
+	delete(s.env, s.Canon(v))
+}
+
 // Set records a fact about v (through its canonical representative).
 func (s *PState) Set(v ssa.Value, t Tri) {
 	c := s.Canon(v)
